@@ -94,3 +94,6 @@ CFG["manifest"] = dict(
           "The model is hand-written and tied to the code differentially, not by translation."),
     technique="Coq proof (trie/table simulation invariant, induction over segments) + exhaustive and random differential correspondence",
 )
+
+import tables  # constant tables / literals of the current source proved equal to the model's on every run (lib/tables.py)
+CFG["secondary"] = CFG.get("secondary", []) + [tables.C04_TABLES]
